@@ -14,6 +14,7 @@ import (
 	"strconv"
 	"sync"
 	"testing"
+	"time"
 )
 
 type cexFile struct {
@@ -206,6 +207,11 @@ func Reach(label string) {}
 
 // Yield is a scheduling point for the interpreter; natively it yields the processor.
 func Yield() { runtime.Gosched() }
+
+// WaitQuiescent lets time pass until nothing else can run: natively it sleeps d (keep it short); under the
+// interpreter it waits on a timer that fires only when every other thread is blocked and every shorter timer
+// has fired.
+func WaitQuiescent(d time.Duration) { time.Sleep(d) }
 
 // Symbolic reports whether the harness runs under the symbolic interpreter.
 func Symbolic() bool { return false }
